@@ -371,7 +371,13 @@ fn priority_case(cx: &mut Cx, r: &mut Rng) {
         let other = if pr == 0 { "user2.html".to_string() } else { n.replace("c.html", "d.html") };
         defs.push((other, pr));
     }
-    let mut tpls: Vec<(String, String)> = defs.iter().map(|(n, _)| (n.clone(), format!("{{% component X() %}}from {n}{{% endcomponent X %}}"))).collect();
+    // every defining template also calls the component itself, directly and through a second component defined next to
+    // it: the call site must not influence which definition is chosen
+    let mut tpls: Vec<(String, String)> = defs
+        .iter()
+        .enumerate()
+        .map(|(i, (n, _))| (n.clone(), format!("{{% component X() %}}from {n}{{% endcomponent X %}}{{% component W{i}() %}}w{{{{ <X /> }}}}{{% endcomponent W{i} %}}[{{{{ <X /> }}}}|{{{{ <W{i} /> }}}}]")))
+        .collect();
     r.shuffle(&mut tpls);
     tpls.push(("page.html".into(), "{{ <X /> }}".into()));
     let best = defs.iter().map(|d| d.1).min();
@@ -391,7 +397,11 @@ fn priority_case(cx: &mut Cx, r: &mut Rng) {
         }
         let api = t.render_component("X", &Context::new(), None, true).map_err(|e| e.to_string())?;
         let tpl = t.render("page.html", &Context::new()).map_err(|e| e.to_string())?;
-        Ok::<(String, String), String>((api, tpl))
+        let mut from_definers = Vec::new();
+        for (n, _) in &defs {
+            from_definers.push((n.clone(), t.render(n, &Context::new()).map_err(|e| e.to_string())?));
+        }
+        Ok::<(String, String, Vec<(String, String)>), String>((api, tpl, from_definers))
     });
     cx.cell(format!("priority|prefixes{nprefix}|defs{}|{}", defs.len(), if dup { "duplicate" } else { "unique" }));
     cx.count("priority_checks", 1);
@@ -402,7 +412,7 @@ fn priority_case(cx: &mut Cx, r: &mut Rng) {
                 cx.violation("C05/priority-set-rejected", format!("a set with distinct priorities was rejected: {}", clip(&e, 200)), replay);
             }
         }
-        Ok(Ok((api, tpl))) => {
+        Ok(Ok((api, tpl, from_definers))) => {
             let dup_at_best = dup && best.map(|b| defs.iter().filter(|d| d.1 == b).count() > 1).unwrap_or(false);
             if dup_at_best {
                 cx.violation("C05/duplicate-component-at-equal-priority-accepted", format!("two definitions at the winning priority were accepted; rendered {tpl:?}"), replay);
@@ -411,7 +421,13 @@ fn priority_case(cx: &mut Cx, r: &mut Rng) {
                 let winner = &defs.iter().find(|d| d.1 == b).unwrap().0;
                 let exp = format!("from {winner}");
                 if api != exp || tpl != exp {
-                    cx.violation("C05/wrong-definition-chosen", format!("expected the definition of {winner}; the API rendered {api:?}, the template call {tpl:?}"), replay);
+                    cx.violation("C05/wrong-definition-chosen", format!("expected the definition of {winner}; the API rendered {api:?}, the template call {tpl:?}"), replay.clone());
+                }
+                for (n, out) in &from_definers {
+                    let want = format!("[{exp}|w{exp}]");
+                    if *out != want {
+                        cx.violation("C05/wrong-definition-chosen/call-site-in-a-defining-template", format!("a call located in {n} (which defines the component at another priority) rendered {out:?}, expected {want:?}"), replay.clone());
+                    }
                 }
             }
         }
